@@ -403,6 +403,26 @@ pub fn reply_frame(id: SeqId, r: &Reply) -> Vec<u8> {
         }
         CF_INTERMEDIATE => rc::intermediate(m, if m % 3 == 0 { Some(m % 100) } else { None }),
         CF_STATUS if m % 16 == 6 => rc::status_info(&rc::Status { result_code: Some(0), ..rc::Status::default() }),
+        // the status information of a payment: card number, track 2, expiry, sequence number, names
+        CF_STATUS if m % 16 == 14 => rc::status_info(&rc::Status {
+            result_code: Some(0),
+            amount: Some(m as u64 * 7 + 1),
+            receipt: Some(m as u64 + 1),
+            trace: Some(m as u64 + 900),
+            currency: Some(978),
+            expiry: Some(2405),
+            card_seq: Some(if m % 32 == 14 { 1 } else { 9999 }),
+            card_type: Some(0x60),
+            pan: Some(vec![0x55, 0x98, 0x84, 0x55, 0x55, 0x54, 0x80, 0x74]),
+            track2: Some(vec![0x55, 0x98, 0x84, 0x55, 0x55, 0x54, 0x80, 0x74, 0xd2, 0x40, 0x5f]),
+            aid: Some(*b"750071\0\0"),
+            vu: Some(*b"804011926      "),
+            card_name: Some(b"MasterCard\0".to_vec()),
+            zvt_card_type: Some(6),
+            zvt_card_type_id: Some(1),
+            turnover: Some(m as u64 + 100),
+            ..rc::Status::default()
+        }),
         CF_PRINT_LINE if m % 16 == 6 => rc::print_line(m, b""),
         CF_PRINT_BLOCK if m % 16 == 6 => rc::print_text_block(m % 4, &[]),
         CF_PRINT_BLOCK if m % 16 == 14 => rc::print_text_block(m % 4, &[b"first".to_vec(), vec![], b"x".to_vec(), vec![]]),
